@@ -81,7 +81,7 @@ struct Gate { open: rt::sync::Mutex<bool>, cv: rt::sync::Condvar }
 #[cfg(not(desync_verif_real))]
 fn my_task() -> usize { desync::verif::me() }
 #[cfg(desync_verif_real)]
-fn my_task() -> usize { use std::hash::{Hash, Hasher}; let mut h = std::collections::hash_map::DefaultHasher::new(); std::thread::current().id().hash(&mut h); h.finish() as usize }
+fn my_task() -> usize { desync::verif::me() }        // caller threads are started through the shim, which numbers them (main = 0)
 
 /// consumer probes (polls with a throw-away waker before the real read) on or off
 pub static PROBE: AtomicBool = AtomicBool::new(true);
